@@ -29,18 +29,20 @@ func TestMain(m *testing.M) {
 }
 
 type caseT struct {
-	MaxRetries int
-	InitialUs  int
-	Mult       float64
-	ExtraMaxUs int
-	RF         float64
-	Hook       bool
-	Logger     bool
-	Fails      int // number of leading failures; -1 = forever
-	Mode       int // 0 plain, 1 ctx cancel at attempt CancelAt, 2 MaxElapsed short (give up before first retry), 3 MaxElapsed loose
-	CancelAt   int
-	ElapsedMs  int
-	SlowUs     int // handler duration in microseconds (MaxElapsedTime mode: attempts may straddle the deadline)
+	MaxRetries  int
+	InitialUs   int
+	Mult        float64
+	ExtraMaxUs  int
+	RF          float64
+	Hook        bool
+	Logger      bool
+	Fails       int // number of leading failures; -1 = forever
+	Mode        int // 0 plain, 1 ctx cancel at attempt CancelAt, 2 MaxElapsed short (give up before first retry), 3 MaxElapsed loose
+	CancelAt    int
+	ElapsedMs   int
+	SlowUs      int  // handler duration in microseconds (MaxElapsedTime mode: attempts may straddle the deadline)
+	CtxDeadline bool // the message context already carries a (far) deadline of its own
+	ErrKind     int  // 0 plain error, 1 wraps context.Canceled, 2 wraps context.DeadlineExceeded (the message context itself is alive)
 }
 
 type plainCase caseT
@@ -126,7 +128,15 @@ func TestRetryModel(t *testing.T) {
 		if c.Logger {
 			r.Logger = watermill.NopLogger{}
 		}
-		msgCtx, cancel := context.WithCancel(context.Background())
+		c.CtxDeadline = rapid.IntRange(0, 2).Draw(t, "messageContextHasDeadline") == 0
+		c.ErrKind = rapid.SampledFrom([]int{0, 0, 1, 2}).Draw(t, "handlerErrorKind")
+		base := context.Background()
+		if c.CtxDeadline {
+			var cancelDeadline context.CancelFunc
+			base, cancelDeadline = context.WithTimeout(base, time.Hour)
+			defer cancelDeadline()
+		}
+		msgCtx, cancel := context.WithCancel(base)
 		defer cancel()
 		msg := message.NewMessage("u", []byte("p"))
 		msg.SetContext(msgCtx)
@@ -143,7 +153,15 @@ func TestRetryModel(t *testing.T) {
 				a.outs = append(a.outs, message.NewMessage(fmt.Sprintf("a%d-o%d", n, i), nil))
 			}
 			if c.Fails < 0 || n <= c.Fails {
-				a.err = fmt.Errorf("failure of attempt %d", n)
+				switch c.ErrKind {
+				case 1:
+					// e.g. a downstream call that was cancelled under its own context: still an ordinary failure
+					a.err = fmt.Errorf("failure of attempt %d: %w", n, context.Canceled)
+				case 2:
+					a.err = fmt.Errorf("failure of attempt %d: %w", n, context.DeadlineExceeded)
+				default:
+					a.err = fmt.Errorf("failure of attempt %d", n)
+				}
 			}
 			if c.Mode == 1 && n == c.CancelAt {
 				cancel()
